@@ -871,7 +871,9 @@ func (ex *Exec) nextInstr(fr *frame, x *ssa.Next) Value {
 		}
 		if !b.IsConst() {
 			if !ex.branch(ex.C.Cmp(OpULt, b, ex.C.Const(8, 0x80))) {
-				panic(engineErr("range over string with symbolic non-ASCII byte"))
+				rn, sz := ex.decodeRuneSym(r.S.B[r.I:])
+				r.I += sz
+				return Tuple{ex.C.True, ex.C.Const(64, uint64(i)), rn}
 			}
 		}
 		r.I++
@@ -1227,4 +1229,60 @@ func (ex *Exec) sliceFromElemPtr(p Ptr, n int) Slice {
 		panic(engineErr("unsafe.Slice/String beyond backing array"))
 	}
 	return Slice{Base: base, Off: last.I, Len: n, Cap: len(arr.E) - last.I}
+}
+
+
+// decodeRuneSym decodes one UTF-8 sequence whose lead byte is symbolic and
+// known to be >= 0x80, exactly as utf8.DecodeRune does (RuneError, width 1
+// for anything malformed), forking on the lead-byte class and on validity.
+func (ex *Exec) decodeRuneSym(bs []*Term) (*Term, int) {
+	c := ex.C
+	b0 := bs[0]
+	bad := func() (*Term, int) { return c.Const(32, 0xFFFD), 1 }
+	in := func(x *Term, lo, hi uint64) *Term {
+		return c.And(c.Cmp(OpULe, c.Const(8, lo), x), c.Cmp(OpULe, x, c.Const(8, hi)))
+	}
+	cont := func(x *Term) *Term { return in(x, 0x80, 0xBF) }
+	low6 := func(x *Term) *Term { return c.ZExt(c.Bin(OpBVAnd, x, c.Const(8, 0x3F)), 32) }
+	sh := func(x *Term, n uint64) *Term { return c.Bin(OpShl, x, c.Const(32, n)) }
+	or := func(a, b *Term) *Term { return c.Bin(OpBVOr, a, b) }
+	switch {
+	case ex.branch(in(b0, 0xC2, 0xDF)):
+		if len(bs) < 2 || !ex.branch(cont(bs[1])) {
+			return bad()
+		}
+		hi := c.ZExt(c.Bin(OpBVAnd, b0, c.Const(8, 0x1F)), 32)
+		return or(sh(hi, 6), low6(bs[1])), 2
+	case ex.branch(in(b0, 0xE0, 0xEF)):
+		if len(bs) < 3 {
+			return bad()
+		}
+		lo, hiB := uint64(0x80), uint64(0xBF)
+		if ex.branch(c.Eq(b0, c.Const(8, 0xE0))) {
+			lo = 0xA0
+		} else if ex.branch(c.Eq(b0, c.Const(8, 0xED))) {
+			hiB = 0x9F
+		}
+		if !ex.branch(c.And(in(bs[1], lo, hiB), cont(bs[2]))) {
+			return bad()
+		}
+		hi := c.ZExt(c.Bin(OpBVAnd, b0, c.Const(8, 0x0F)), 32)
+		return or(or(sh(hi, 12), sh(low6(bs[1]), 6)), low6(bs[2])), 3
+	case ex.branch(in(b0, 0xF0, 0xF4)):
+		if len(bs) < 4 {
+			return bad()
+		}
+		lo, hiB := uint64(0x80), uint64(0xBF)
+		if ex.branch(c.Eq(b0, c.Const(8, 0xF0))) {
+			lo = 0x90
+		} else if ex.branch(c.Eq(b0, c.Const(8, 0xF4))) {
+			hiB = 0x8F
+		}
+		if !ex.branch(c.And(c.And(in(bs[1], lo, hiB), cont(bs[2])), cont(bs[3]))) {
+			return bad()
+		}
+		hi := c.ZExt(c.Bin(OpBVAnd, b0, c.Const(8, 0x07)), 32)
+		return or(or(or(sh(hi, 18), sh(low6(bs[1]), 12)), sh(low6(bs[2]), 6)), low6(bs[3])), 4
+	}
+	return bad()
 }
